@@ -1,6 +1,6 @@
 SPECIFICATION Spec
 CONSTANTS
-  Fds = {3, 4}
+  Fds = {3, 4, 5}
   MaxVer = 3
   MaxRefused = 2
   Signals = {6, 9, 11}
